@@ -1142,3 +1142,8 @@ def run(ctx: Ctx, rep: Report, tier: str) -> None:
             rep.violation("port_name.all_known_names", f"name {m!r} of {need[m]}", f"'eq {m} log' is split as dstport 'eq' + option '{m} log': the rest of the destination ports moves into the options", where(ctx.func("port_name.all_known_names")), inp=f"permit tcp any any eq {m}")
     else:
         rep.ok("splitter vocabulary", f"{len(set(vocab))} names cover all {len(need)} selectable port names")
+
+
+# what the later rounds (seeding rounds 2-5, refactor twins, defect hunt) added to what the check decides
+LATER_ROUNDS = "the address and group-name spellings are read whole on both sides of an entry (witness lines through the assembled grammar, the group-name reader partially evaluated), the option text is partitioned completely, a refused protocol leaves the object unchanged"
+EXPLANATION = EXPLANATION.replace(" Does not decide", " Later rounds added: " + LATER_ROUNDS + ". Does not decide", 1) if " Does not decide" in EXPLANATION else EXPLANATION + " Later rounds added: " + LATER_ROUNDS + "."
